@@ -25,4 +25,8 @@ def build(repo, tier, seed):
                          "L11 is a syntactic obligation over the AST of every method of every class of /repo/labrea; mix/resolve/get_dotted_key are pure by their assumed contracts"]
     from . import ctor_c05
     b["syntactic"] += [x for x in ctor_c05.obligations(repo) if x["name"].startswith(("DatasetFactory.", "Dataset.", "WithOptions."))]
+    from . import definition_time
+    pl_syn, pl_und = definition_time.plumbing(repo)
+    b["syntactic"] += [x for x in pl_syn if x["name"].startswith(("DatasetFactory.update", "Map._create_option_set"))]
+    b["undecided"] += pl_und
     return b
